@@ -62,7 +62,7 @@ Definition get_special (e : env) (name : bytes) : outcome getres unit :=
   match name with
   | [35] (* # *) => mk (itoa (Z.of_nat (length (args e)) - 1))
   | [63] (* ? *) => mk [48]
-  | [45] (* - *) => v <- option_string (opts e) ;; mk v
+  | [45] (* - *) => v <- option_string (opts e) ;; Ok (name, v, true)     (* set even when no option is *)
   | [36] (* $ *) => mk (itoa (pid e))
   | [33] (* ! *) => mk []
   | [48] (* 0 *) => match args e with a0 :: _ => mk a0 | [] => Panic 70 end
